@@ -133,6 +133,10 @@ def run_bank(prop, root):
                 res['twins'] += 1
                 if status == 'silent':
                     res['twins_silent'] += 1
+                elif status == 'error':
+                    # a refactoring shape the recognisers do not understand: reported as "cannot analyse" (exit 2),
+                    # never as a violation - listed, not a failure of the bank
+                    res.setdefault('twins_unrecognised', []).append('%s: %s' % (m['id'], info))
                 else:
                     problems.append('behaviour-preserving twin %s: %s %s' % (m['id'], status, info))
             else:
